@@ -26,14 +26,17 @@ struct Case {
     cand: Option<f64>,
     /// the acceptance runs in an inner scope with its own temperature below an outer, very different one
     scoped: bool,
+    /// the component is constructed with a placeholder temperature of 0 and the Temperature state is set to
+    /// `t` afterwards (calibration, re-heating): the rule follows the state
+    adapted: bool,
 }
 impl Case {
     fn json(&self) -> Value {
-        json!({"cur": format!("{:016x}", self.cur.to_bits()), "delta": self.delta, "t": self.t, "same": self.same, "cand": self.cand.map(|c| format!("{:016x}", c.to_bits())), "scoped": self.scoped})
+        json!({"cur": format!("{:016x}", self.cur.to_bits()), "delta": self.delta, "t": self.t, "same": self.same, "cand": self.cand.map(|c| format!("{:016x}", c.to_bits())), "scoped": self.scoped, "adapted": self.adapted})
     }
     fn from(v: &Value) -> Option<Case> {
         let hex = |x: &Value| x.as_str().and_then(|s| u64::from_str_radix(s, 16).ok()).map(f64::from_bits);
-        Some(Case { cur: hex(&v["cur"]).unwrap_or(20.0), delta: v["delta"].as_f64()?, t: v["t"].as_f64()?, same: v["same"].as_bool().unwrap_or(false), cand: hex(&v["cand"]), scoped: v["scoped"].as_bool().unwrap_or(false) })
+        Some(Case { cur: hex(&v["cur"]).unwrap_or(20.0), delta: v["delta"].as_f64()?, t: v["t"].as_f64()?, same: v["same"].as_bool().unwrap_or(false), cand: hex(&v["cand"]), scoped: v["scoped"].as_bool().unwrap_or(false), adapted: v["adapted"].as_bool().unwrap_or(false) })
     }
     fn cand_value(&self) -> f64 {
         self.cand.unwrap_or(self.cur + self.delta)
@@ -51,32 +54,51 @@ fn cases() -> Vec<Case> {
     let mut v = vec![];
     for d in DELTAS {
         for t in TEMPS {
-            v.push(Case { cur: 20.0, delta: d, t, same: false, cand: None, scoped: false });
+            v.push(Case { cur: 20.0, delta: d, t, same: false, cand: None, scoped: false, adapted: false });
         }
         // temperature exactly zero (alpha = 0 cooling reaches it after one pass)
-        v.push(Case { cur: 20.0, delta: d, t: 0.0, same: false, cand: None, scoped: false });
+        v.push(Case { cur: 20.0, delta: d, t: 0.0, same: false, cand: None, scoped: false, adapted: false });
     }
     // margins of a few ulps at temperatures far below them
     for d in [-1e-15, 0.0, 2.220446049250313e-16, 1e-15, 1e-12] {
         for t in [0.0, 1e-300, 1e-17, 1e-12] {
-            v.push(Case { cur: 1.0, delta: d, t, same: false, cand: None, scoped: false });
+            v.push(Case { cur: 1.0, delta: d, t, same: false, cand: None, scoped: false, adapted: false });
         }
     }
     // the candidate has the encoding of the current solution but another objective value
     for d in [-1.0, 0.5, 1.0, 10.0] {
         for t in [0.1, 1.0, 1e9] {
-            v.push(Case { cur: 20.0, delta: d, t, same: true, cand: None, scoped: false });
+            v.push(Case { cur: 20.0, delta: d, t, same: true, cand: None, scoped: false, adapted: false });
         }
     }
     // zeros of different sign are equally good: the candidate always survives, at every temperature
     for t in [0.0, 1e-300, 1.0, 1e9] {
-        v.push(Case { cur: -0.0, delta: 0.0, t, same: false, cand: Some(0.0), scoped: false });
-        v.push(Case { cur: 0.0, delta: 0.0, t, same: false, cand: Some(-0.0), scoped: false });
+        v.push(Case { cur: -0.0, delta: 0.0, t, same: false, cand: Some(0.0), scoped: false, adapted: false });
+        v.push(Case { cur: 0.0, delta: 0.0, t, same: false, cand: Some(-0.0), scoped: false, adapted: false });
     }
     // the acceptance in a scope of its own: its temperature is the one of that scope
     for d in [-1.0, 0.0, 0.5, 10.0] {
         for t in [1e-9, 1.0, 1e9] {
-            v.push(Case { cur: 20.0, delta: d, t, same: false, cand: None, scoped: true });
+            v.push(Case { cur: 20.0, delta: d, t, same: false, cand: None, scoped: true, adapted: false });
+        }
+    }
+    // a candidate worse by one to three ulps at temperatures far below that margin, for objective values whose
+    // quotients by the temperature are not exactly representable
+    for cur in [0.7, 1.37, 3.3, 20.3, 123.456, 0.001234] {
+        for k in 1..=3 {
+            let mut cand = cur;
+            for _ in 0..k {
+                cand = crate::engine::util::next_up(cand);
+            }
+            for t in [1e-20, 3.7e-19, 7.3e-18, 1.9e-17] {
+                v.push(Case { cur, delta: 0.0, t, same: false, cand: Some(cand), scoped: false, adapted: false });
+            }
+        }
+    }
+    // the temperature is state: constructed with a placeholder of 0, set afterwards
+    for d in [-1.0, 0.5, 1.0, 10.0] {
+        for t in [1.0, 10.0, 1e9] {
+            v.push(Case { cur: 20.0, delta: d, t, same: false, cand: None, scoped: false, adapted: true });
         }
     }
     v
@@ -89,8 +111,16 @@ fn run_accept(c: Case) -> Obs {
     let cand = c.cand_value();
     let mut st = state_with::<TagP>(vec![tpop(&[(9, 99.0)]), tpop(&[(1, c.cur)]), tpop(&[(c.cand_tag(), cand)])]);
     let t = c.t;
-    let comp = ExponentialAnnealingAcceptance::new::<TagP>(t);
-    let r = if c.scoped {
+    let comp = ExponentialAnnealingAcceptance::new::<TagP>(if c.adapted { 0.0 } else { t });
+    let r = if c.adapted {
+        (|| -> mahf::ExecResult<()> {
+            comp.init(&TagP, &mut st)?;
+            comp.require(&TagP, &st.requirements())?;
+            st.set_value::<Temperature>(t);
+            comp.execute(&TagP, &mut st)
+        })()
+        .map_err(|e| format!("{:#}", e))
+    } else if c.scoped {
         // an outer temperature at the other extreme; the component initialises its own in the inner scope
         st.insert(Temperature(if t <= 1.0 { 1e12 } else { 1e-12 }));
         st.with_inner_state(|inner| run_component(comp.as_ref(), &TagP, inner)).map(|_| ()).map_err(|e| format!("{:#}", e))
@@ -143,7 +173,7 @@ fn check_accept(c: Case, word: Option<u64>, out: &Outcome<Obs>) -> Option<(Strin
     } else {
         "worse"
     };
-    let head = format!("C17 acceptance candidate={}{}{}{}", dclass, if c.t == 0.0 { " T=0" } else { "" }, if c.same { " same-encoding" } else { "" }, if c.scoped { " in-scope" } else { "" });
+    let head = format!("C17 acceptance candidate={}{}{}{}", dclass, if c.t == 0.0 { " T=0" } else { "" }, if c.same { " same-encoding" } else { "" }, if c.scoped { " in-scope" } else if c.adapted { " temperature-set-after-init" } else { "" });
     let ctx = |w: String| format!("f(current)={:?}, f(candidate)={:?}, T={:?}{}, candidate encoding {} the current one, acceptance word {:?}: {}", c.cur, c.cand_value(), c.t, if c.scoped { " (in an inner scope; the outer scope holds another temperature)" } else { "" }, if c.same { "equals" } else { "differs from" }, word, w);
     let (r, pops) = match out {
         Outcome::Done(o) => o,
@@ -229,7 +259,7 @@ fn measure_verdict(c: Case, acc: u64, tot: u64, grid: usize) -> Option<(String, 
     let share = acc as f64 / tot as f64;
     if (share - p).abs() > 2.0 / grid as f64 {
         return Some((
-            format!("C17 acceptance candidate=worse{}{}{} {}", if c.t == 0.0 { " T=0" } else { "" }, if c.same { " same-encoding" } else { "" }, if c.scoped { " in-scope" } else { "" }, if share > p { "accepted-too-often" } else { "accepted-too-rarely" }),
+            format!("C17 acceptance candidate=worse{}{}{} {}", if c.t == 0.0 { " T=0" } else { "" }, if c.same { " same-encoding" } else { "" }, if c.scoped { " in-scope" } else if c.adapted { " temperature-set-after-init" } else { "" }, if share > p { "accepted-too-often" } else { "accepted-too-rarely" }),
             format!("f(current)={:?}, f(candidate)={:?}, T={:?}: the candidate survives for {} of {} evenly spaced acceptance words ({}), exp(-delta/T) = {:?}", c.cur, c.cand_value(), c.t, acc, tot, share, p),
         ));
     }
